@@ -6,7 +6,8 @@ Conventions: a string is its byte list; `encode rs` is `string(rs)` for a rune l
 "valid UTF-8 string" = `encode rs` with every rune of `rs` a valid scalar value
 (`validRune`: not a surrogate, ≤ U+10FFFF).  `none` = the Go code panics (or the model's
 loop fuel ran out, which `c17_no_panic` excludes as well).
-The model of `SubByDisplay` is the repaired code (F9: see `Golib/Findings/C17.lean`).
+The models of `SubByDisplay` and `Mask` are the repaired code (F9, F15: see
+`Golib/Findings/C17.lean`).
 -/
 import Golib.Proof.C17Loops
 import Golib.Proof.C17Spec
@@ -15,6 +16,7 @@ import Golib.Proof.C17Mask
 import Golib.Proof.C17Case
 import Golib.Proof.C17Utf8Valid
 import Golib.Findings.C17
+import Golib.Proof.C17Int64
 
 namespace Golib.C17
 open Golib.Utf8
@@ -104,6 +106,40 @@ theorem c17_mask (rs ms : List Int) (hv : ∀ r ∈ rs, validRune r = true)
             else encode (rs.take start ++ maskRunes ms (rs.length - start - end_)
                           ++ rs.drop (rs.length - end_))) :=
   mask_encode rs ms hv hm start end_
+
+/-- `Mask` with Go's 64-bit `int`: the repaired code never wraps around.  For every string
+(shorter than 2^63 bytes, as every Go string is) and ALL non-negative `int` arguments — up
+to `MaxInt64`, far beyond the rune count — evaluating every `int` operation of `Mask` with
+two's-complement wrap-around (`Findings.mask64`) gives exactly the unbounded-integer model
+`mask` that `c17_mask`, `c17_no_panic` and `c17_results_valid` are about.  (False of the
+pre-fix code, finding F15: `Findings.f15_old_mask_panics`, `Findings.f15_old_mask_wrong`.)
+`SubByDisplay` performs no arithmetic on its argument (only `len(s) <= length` and
+`dpl > length`); for `Sub` see `c17_sub_int64_exact`. -/
+theorem c17_mask_int64_exact (str msk : List Nat) (start end_ : Int)
+    (hl : (str.length : Int) ≤ Findings.maxInt64)
+    (hs : 0 ≤ start ∧ start ≤ Findings.maxInt64) (he : 0 ≤ end_ ∧ end_ ≤ Findings.maxInt64) :
+    Findings.mask64 str msk start end_ = mask str msk start end_ :=
+  Findings.mask64_eq_mask str msk start end_ hl hs he
+
+/-- `Sub` with Go's 64-bit `int`: its only arithmetic on the arguments is the sum in
+`start+length == count`.  Evaluated with two's-complement wrap-around (`sub64`) the function
+is the same as the unbounded-integer model `sub` for ALL `0 ≤ start ≤ MaxInt64` and
+`-1 ≤ length ≤ MaxInt64` (an overflowed sum is negative, the exact one ≥ 2^63, and
+`0 ≤ count ≤ len(s)` equals neither). -/
+theorem c17_sub_int64_exact (s : List Nat) (start length : Int)
+    (hlen : (s.length : Int) ≤ Findings.maxInt64)
+    (hs : 0 ≤ start ∧ start ≤ Findings.maxInt64)
+    (hl : -1 ≤ length ∧ length ≤ Findings.maxInt64) :
+    sub64 s start length = sub s start length :=
+  sub64_eq_sub s start length hlen hs hl
+
+/-- Non-vacuity: a sum that overflows (`Sub("abc", 2, MaxInt64)` = `"c"`). -/
+example : sub64 [97, 98, 99] 2 Findings.maxInt64 = some [99] ∧
+    Findings.wrap64 (2 + Findings.maxInt64) < 0 := by decide
+
+/-- Non-vacuity: the F15 witnesses `Mask("abc","*",MaxInt64,5)`, `Mask("abc","*",MaxInt64,MaxInt64)`. -/
+example : mask [97, 98, 99] [42] Findings.maxInt64 5 = some [97, 98, 99] ∧
+    Findings.mask64 [97, 98, 99] [42] Findings.maxInt64 Findings.maxInt64 = some [97, 98, 99] := by decide
 
 /-- Non-vacuity: mask boundaries next to multi-byte runes; single- and multi-rune masks. -/
 example : mask (encode [0x61, 0xe9, 0x4f60, 0x1f600, 0x42]) (encode [0x2a]) 1 1
